@@ -1,25 +1,25 @@
 """C11 — production names rename glyphs and change nothing else.
 
-Functions of Lib/ufo2ft/postProcessor.py under contract here:
+Functions of Lib/ufo2ft/postProcessor.py under contract here (all inputs unless marked):
 
-* PostProcessor._unique_name            fresh / recorded / monotone / shape / legality preserved (all inputs)
+* PostProcessor._unique_name            fresh / recorded / monotone / shape / legality preserved
 * PostProcessor._build_production_names values pairwise distinct, never equal to a name that is kept, legal
-                                        characters only, domain = the glyphs present in the source (all inputs)
-* PostProcessor._build_production_name  variant `lib`: the lib-supplied name wins when it is non-empty (all inputs);
-                                        the generated-name rules (uniXXXX, suffixes, ligatures) are outside the
-                                        engine's string fragment -> bounded reference check in vcheck/hooks/c11.py
-* PostProcessor.rename_glyphs           variant `no-cff`: new order = old order mapped position-wise; no duplicate
-                                        in the final glyph order; post.extraNames follow (CFF charset/CharStrings
-                                        rewriting is a dict comprehension with computed keys -> bounded hook)
-* PostProcessor._rename_glyphs_from_ufo composition of the two
+                                        characters only, domain = the glyphs present in the source
+* PostProcessor._build_production_name  the WHOLE function: lib entry / uniXXXX-uXXXXX / base.suffix / plain rules as string
+                                        clauses, no exception, nothing written (the two ligature rules: run time only)
+* PostProcessor.rename_glyphs           `general` (every flavour): new order = old order mapped position-wise, no duplicate,
+                                        post.extraNames follow, CFF charset mapped; `cff`: charset + CharStrings re-keyed with
+                                        ONE map, charstring objects kept; `frame`: safety + frame incl. the loaded-CFF2 branch
+* PostProcessor._rename_glyphs_from_ufo composition (every flavour; `cff`: CFF names == final glyph order, objects kept)
 * PostProcessor.set_post_table_format   format written; names refreshed (2.0) / dropped (3.0)
-* PostProcessor.process_glyph_names     decision table over (argument, three lib keys, CFF presence) and the
-                                        typestate clause "the font is reloaded BEFORE it is renamed"
+* PostProcessor.process_glyph_names     decision table over (argument, three lib keys, CFF presence), no precondition, and the
+                                        typestate clause "the font is reloaded BEFORE it is renamed"; `cff`, `frame` variants
+* PostProcessor.__init__, _reloadFont
 
 Class vocabulary (PP* = the objects as the post-processor sees them) is ASSUMED: fontTools' TTFont as
-(glyph order, table presence, a `post` table object, the typestate flag `pristine`), `_reloadFont` as
+(glyph order, table presence, a `post` table object, CFF table objects, the typestate flag `pristine`), `_reloadFont` as
 "returns a fresh, pristine font with the same glyph order and table set", `re.Pattern.sub` for the
-class constant GLYPH_NAME_INVALID_CHARS (the character class is read from the REAL class on every run).
+class constant GLYPH_NAME_INVALID_CHARS (the character class is read from the REAL class on every run), three str methods.
 """
 import re as _re
 
@@ -1371,6 +1371,7 @@ contract(
     params={"self": Ref("PostProcessor"), "useProductionNames": Opt(BOOL)},
     calls={f"{PP}._rename_glyphs_from_ufo": f"{PP}._rename_glyphs_from_ufo#cff"},
     modifies=sorted(set(["PostProcessor.otf"] + _RENAME_FRAME + _POST_FIELDS)),
+    merge_branches=False,  # one VC per path: no ite over heaps between "renamed" and "not renamed"
     requires=["'CFF ' in self.otf"],
     ensures={
         # renaming a 'CFF ' font ends with a CFF table whose charset is the final glyph order
